@@ -39,7 +39,7 @@ func init() {
 					u = append(u, fmt.Sprintf("directive combination %d never compiled", o))
 				}
 			}
-			for _, c := range []string{"snapshots_compared", "repeat_compilations", "shuffled_compilations", "aliasing_probes_copyconfig", "aliasing_probes_extendconf", "nil_map_configs", "undefined_mode_sources", "infix_sources", "sources_with_plain_comment_before_directive", "compile_errors_snapshotted"} {
+			for _, c := range []string{"snapshots_compared", "repeat_compilations", "shuffled_compilations", "aliasing_probes_copyconfig", "aliasing_probes_extendconf", "nil_map_configs", "big_list_constants", "undefined_mode_sources", "infix_sources", "sources_with_plain_comment_before_directive", "compile_errors_snapshotted"} {
 				if m.C(c) == 0 {
 					u = append(u, c+" = 0")
 				}
@@ -147,6 +147,28 @@ func c08Make(w *W, r *rand.Rand, k int) *c08Case {
 		cfg.Consts[n] = v
 	}
 	tree.Consts(cfg.Consts)
+	if r.Intn(4) == 0 && !infix {
+		// large unsorted list constants used by constant-only sub-expressions (folded during Compile)
+		w.Inc("big_list_constants")
+		na, nb := []int{20, 60, 100, 150}[r.Intn(4)], []int{40, 60, 100}[r.Intn(3)]
+		var extra *Node
+		if r.Intn(2) == 0 {
+			a, b := bigIntList(r, na), bigIntList(r, nb)
+			extra = Op("overlap", TBool, ConstRef("KBIGA", a), ConstRef("KBIGB", b))
+			if r.Intn(3) == 0 {
+				extra = Op("in", TBool, Lit(a[len(a)/2]), ConstRef("KBIGA", a))
+			}
+		} else {
+			a, b := bigStrList(r, na), bigStrList(r, nb)
+			extra = Op("overlap", TBool, ConstRef("KBIGC", a), ConstRef("KBIGD", b))
+		}
+		if tree.Ty == TBool {
+			tree = Op([]string{"and", "or"}[r.Intn(2)], TBool, tree, extra)
+		} else {
+			tree = If(extra, tree, tree.Clone())
+		}
+		tree.Consts(cfg.Consts)
+	}
 	if r.Intn(2) == 0 {
 		cfg.Costs = randomCosts(r, tree, r.Intn(4) == 0)
 	}
